@@ -553,6 +553,9 @@ def terminal_current_validator(ctx, fv):
             if name == "CURRENT_FUNCTION":
                 n_calls[0] += 1
                 return dict(currents["value"])
+            if short in ("isfinite", "isnan", "isinf") and len(args) == 1 and isinstance(args[0], (int, float)):
+                import math
+                return getattr(math, short)(args[0])
             if name.endswith("default_rng"):
                 return SO("rng")
             if name == "rng.random":
@@ -585,19 +588,27 @@ def terminal_current_validator(ctx, fv):
              ("misspelt terminal in a dict", {"callable": False, "value": {"a": 1.0, "x": -1.0}}, "raise"),
              ("balanced function of time", {"callable": True, "value": {"a": 2.0, "b": -2.0}}, "return"),
              ("unbalanced function of time", {"callable": True, "value": {"a": 2.0, "b": -1.0}}, "raise"),
-             ("function of time naming an unknown terminal", {"callable": True, "value": {"a": 2.0, "x": -2.0}}, "raise")]
+             ("function of time naming an unknown terminal", {"callable": True, "value": {"a": 2.0, "x": -2.0}}, "raise"),
+             ("a current that is not a number (nan) in a dict", {"callable": False, "value": {"a": float("nan"), "b": -1.0}}, "raise"),
+             ("a current that is not a number (nan) from a function of time", {"callable": True, "value": {"a": 1.0, "b": float("nan")}}, "raise")]
     res = {}
     for what, cur, want in cases:
         kind, val = run(cur)
         res[what] = (kind, want, n_calls[0])
     unknown_ok = all(res[k][0] == res[k][1] for k in res if "misspelt" in k or "unknown" in k)
-    balance_ok = all(res[k][0] == res[k][1] for k in res if "balanced" in k)
+    balance_ok = all(res[k][0] == res[k][1] for k in res if "balanced" in k and "nan" not in k)
     sampled = res["balanced function of time"][2] >= 2 and res["balanced dict"][2] == 0
     ctx.ob("R19.3", "unknown terminal names are rejected (key set difference)", unknown_ok, detail={k: v[0] for k, v in res.items()}, where=fv.fq,
            construct="unknown terminal guard", message=f"no guard on unknown terminal names: {res}", consequence="a misspelt terminal silently carries no current")
     ctx.ob("R19.3", "unbalanced currents are rejected down to one part in 1e6 (exact test, or tolerance <= 1e-7 relative)", balance_ok,
            detail={k: v[0] for k, v in res.items()}, where=fv.fq, construct="balance guard strength", message=f"balance guard: {res}",
            consequence="an imbalance of 1e-6 of the drive is accepted")
+    nan_ok = all(res[k][0] == res[k][1] for k in res if "nan" in k)
+    ctx.ob("R19.3", "currents whose sum is not a number are rejected (the balance test accepts only a sum it has compared successfully)", nan_ok,
+           detail={k: v[0] for k, v in res.items() if "nan" in k}, where=fv.fq, construct="balance guard on nan",
+           message=f"a nan current passes the balance test: { {k: v[0] for k, v in res.items() if 'nan' in k} }",
+           consequence="terminal_currents with a nan value (a failed upstream computation) are accepted: every comparison with nan is false, so a "
+                       "test of the form `if abs(total) > tol: raise` lets it through, the run starts and writes nan fields")
     ctx.ob("R19.3", "callable currents are checked at sampled times, dict currents once", sampled and balance_ok,
            detail={k: v[2] for k, v in res.items()}, where=fv.fq, construct="validator dispatch", message=f"validator does not cover both input forms: {res}",
            consequence="time-dependent terminal currents are never checked")
